@@ -36,7 +36,13 @@ for _i, _v in enumerate(SBOX):
     INV[_v] = _i
 RCON = [1, 2, 4, 8, 16, 32, 64, 128, 27, 54]
 
+import functools
+_M = {k: [_gm(a, k) for a in range(256)] for k in (2, 3, 9, 11, 13, 14)}
+_M2, _M3, _M9, _M11, _M13, _M14 = (_M[k] for k in (2, 3, 9, 11, 13, 14))
+
+@functools.lru_cache(maxsize=4096)
 def _expand(key):
+    key = bytes(key)
     w = [list(key[i:i + 4]) for i in range(0, 16, 4)]
     for i in range(4, 44):
         t = list(w[i - 1])
@@ -49,7 +55,7 @@ _SR = [0, 5, 10, 15, 4, 9, 14, 3, 8, 13, 2, 7, 12, 1, 6, 11]
 _ISR = [0, 13, 10, 7, 4, 1, 14, 11, 8, 5, 2, 15, 12, 9, 6, 3]
 
 def aes_enc(key, blk):
-    rk = _expand(key)
+    rk = _expand(bytes(key))
     s = [a ^ b for a, b in zip(blk, rk[0])]
     for r in range(1, 11):
         s = [SBOX[x] for x in s]
@@ -58,14 +64,14 @@ def aes_enc(key, blk):
             n = []
             for c in range(4):
                 a = s[4 * c:4 * c + 4]
-                n += [_gm(a[0], 2) ^ _gm(a[1], 3) ^ a[2] ^ a[3], a[0] ^ _gm(a[1], 2) ^ _gm(a[2], 3) ^ a[3],
-                      a[0] ^ a[1] ^ _gm(a[2], 2) ^ _gm(a[3], 3), _gm(a[0], 3) ^ a[1] ^ a[2] ^ _gm(a[3], 2)]
+                n += [_M2[a[0]] ^ _M3[a[1]] ^ a[2] ^ a[3], a[0] ^ _M2[a[1]] ^ _M3[a[2]] ^ a[3],
+                      a[0] ^ a[1] ^ _M2[a[2]] ^ _M3[a[3]], _M3[a[0]] ^ a[1] ^ a[2] ^ _M2[a[3]]]
             s = n
         s = [a ^ b for a, b in zip(s, rk[r])]
     return bytes(s)
 
 def aes_dec(key, blk):
-    rk = _expand(key)
+    rk = _expand(bytes(key))
     s = [a ^ b for a, b in zip(blk, rk[10])]
     for r in range(9, -1, -1):
         s = [s[i] for i in _ISR]
@@ -75,8 +81,8 @@ def aes_dec(key, blk):
             n = []
             for c in range(4):
                 a = s[4 * c:4 * c + 4]
-                n += [_gm(a[0], 14) ^ _gm(a[1], 11) ^ _gm(a[2], 13) ^ _gm(a[3], 9), _gm(a[0], 9) ^ _gm(a[1], 14) ^ _gm(a[2], 11) ^ _gm(a[3], 13),
-                      _gm(a[0], 13) ^ _gm(a[1], 9) ^ _gm(a[2], 14) ^ _gm(a[3], 11), _gm(a[0], 11) ^ _gm(a[1], 13) ^ _gm(a[2], 9) ^ _gm(a[3], 14)]
+                n += [_M14[a[0]] ^ _M11[a[1]] ^ _M13[a[2]] ^ _M9[a[3]], _M9[a[0]] ^ _M14[a[1]] ^ _M11[a[2]] ^ _M13[a[3]],
+                      _M13[a[0]] ^ _M9[a[1]] ^ _M14[a[2]] ^ _M11[a[3]], _M11[a[0]] ^ _M13[a[1]] ^ _M9[a[2]] ^ _M14[a[3]]]
             s = n
     return bytes(s)
 
